@@ -251,3 +251,12 @@ package nasType
 //@ func verifLemmaUnknownParameter(qfi, id, l, rest) (err)
 //@   ensures implies(id < 1 || id > 7, err != nil)
 //@ end
+
+//@ func verifLemmaRuleFilters15(id, prec, qfi, ids) (ok, err)
+//@   requires qfi < 64
+//@   ensures err == nil && ok
+//@ end
+
+//@ func verifLemmaFlowParameters63(qfi, vals) (ok, err)
+//@   ensures err == nil && ok
+//@ end
